@@ -469,6 +469,11 @@ RunLoop:
 				} else {
 					done = numIsLessThan(nextStart, stop) || numIsLessThan(start, nextStart)
 				}
+				if nextStart.IsNaN() {
+					// The loop continues while the value is <= (or >=) the
+					// limit, which is never the case for NaN.
+					done = true
+				}
 				if done {
 					nextStart = NilValue
 				}
@@ -515,6 +520,11 @@ RunLoop:
 					done, _ = isLessThan(stop, start)
 				} else {
 					done, _ = isLessThan(start, stop)
+				}
+				if start.IsNaN() || stop.IsNaN() {
+					// start <= stop (or start >= stop) is false if either is
+					// NaN, so there are no iterations.
+					done = true
 				}
 				if done {
 					start = NilValue
